@@ -177,7 +177,7 @@ def conditions_of(prog):
     seen = []
 
     def add(c):
-        if c.startswith("flag:"):
+        if c.startswith(("flag:", "notflag:")):
             return  # program state, not a scripted truth table
         if c not in seen:
             seen.append(c)
@@ -555,6 +555,28 @@ def c19_programs(tier):
                         yield emit([("loop", 2, [st]), ("take", "after")])
                     if thorough or wi < 2:
                         yield emit([("take", "pre0"), st, ("take", "after")])
+    # eligibility must be judged at the moment of EACH pick: items that finish without consuming
+    # a time step and write program state (flag F) that another item's precondition reads, so
+    # two picks happen in the same time step with different sets of eligible items
+    flag_items = {
+        "ZS": {"pre": ["pa"], "body": [("loop", 0, [("take", "zz")]), ("set", "F", True)]},  # zero duration, enables FN
+        "ZC": {"pre": ["pb"], "body": [("loop", 0, [("take", "zz")]), ("set", "G", True)]},  # zero duration, disables GN
+        "FN": {"pre": ["flag:F"], "body": [("take", "f")]},
+        "GN": {"pre": ["notflag:G"], "body": [("take", "g")]},
+        "ZT": {"pre": ["pc"], "body": [("take", "z"), ("set", "F", True)]},  # one step, then enables FN
+    }
+    for kind in ("shuffle", "choose"):
+        for names_ in (("ZS", "FN"), ("ZC", "GN"), ("ZS", "FN", "PA"), ("ZC", "GN", "PA"), ("ZT", "FN"), ("ZS", "ZC", "FN", "GN")):
+            for ws in ((1,) * len(names_), (1, 2, 3, 0.5)[: len(names_)]):
+                for form in ("dict", "list") if ws[0] == ws[-1] else ("dict",):
+                    st = (kind, [(n_, w if form == "dict" else 1) for n_, w in zip(names_, ws)], form)
+                    for body in ([st, ("take", "after")], [("take", "pre0"), st, ("take", "after")]):
+                        behaviors = dict(C19_ITEMS)
+                        behaviors.update(flag_items)
+                        behaviors["B"] = {"body": body}
+                        i = idx
+                        idx += 1
+                        yield i, {"behaviors": behaviors, "monitors": {}, "agents": [("A1", "B")], "top": {}}
     # do choose / do shuffle over sub-scenarios in a compose block
     scns = {
         "QA": {"pre": ["pa"], "compose": [("wait",)]},
